@@ -318,6 +318,7 @@ fn diff_sweep(ctx: Option<&Ctx>, space: Space, cfgs: &[Cfg], lv: Levels, with_fa
                         c.exec(calls);
                         c.validated(1);
                         c.states.insert(digest(&(&input, &s.cuts, order, v.fail_at, v.mem)));
+                        c.outcomes.insert(digest(&(&input, calls, ran, v.fail_at)));
                         if ran {
                             c.nontrivial.insert(digest(&(&input, &v.handlers, v.fail_at)));
                         }
